@@ -123,8 +123,10 @@ def c26(ck, F, tier):
     ck.rule("DERIVE-CLOSURE", "Encode+Decode derived on the whole field closure of Workbook, no skip attributes", floor=100, exhaustive=True)
     ck.rule("BYTES-SHAPE", "shape of to_bytes / from_bytes / from_workbook", floor=7)
     ck.trust("bitcode crate (derive and codec)")
+    ck.rule("STORED-EQ-PARSED", "the formula text saved is the text of the tree kept in memory", floor=2)
     guarded(ck, io.derive_closure, F)
     guarded(ck, io.bytes_roundtrip_shape, F)
+    guarded(ck, io.stored_eq_parsed, F)
 
 
 def c08(ck, F, tier):
